@@ -124,7 +124,12 @@ def run_property(args):
     if args.only:
         cids = [c for c in cids if args.only in c]
     tmo = 60000 if tier == "thorough" else 10000
-    from pyvc.run import merge_results
+    from pyvc.run import merge_results, SHARED_INDEX
+    for cid in cids:
+        try:
+            SHARED_INDEX.load(os.path.join(repo_root(), REGISTRY[cid].file))
+        except Exception:
+            pass
     results = {}
     crashes = []
     ctxm = mp.get_context("fork")
